@@ -332,7 +332,14 @@ open Lean CylcModel.Drv
 /-- a run in which the real scheduler raised an exception is never a behaviour of the model -/
 def crashReply? (i : Json) : Option Reply :=
   match jStrField? i "crash" with
-  | some msg => some { model := Json.null, holds := false, why := s!"scheduler-exception: {msg}" }
+  | some msg =>
+    -- the one recorded crash of the real scheduler (finding `datastore-crash`: AttributeError in
+    -- DataStoreMgr._family_ascent_point_update, a part of cylc-flow that is not modelled): the run is reported under
+    -- that key and carries no correspondence claim; any other exception is a plain failure
+    if (msg.splitOn "object has no attribute 'graph_depth'").length > 1 then
+      some { model := Json.mkObj [("crash", Json.str "datastore-crash")], holds := false,
+             why := s!"datastore-crash: scheduler-exception: {msg}" }
+    else some { model := Json.null, holds := false, why := s!"scheduler-exception: {msg}" }
   | none => none
 
 /-- the observations as a list -/
